@@ -55,6 +55,7 @@ def strategy(kind):
             run = {'method': spec['method'], 'threads': draw(st.integers(1, 8)), 'pool': draw(st.sampled_from(['det', 'det', 'real'])),
                    'order': draw(st.lists(st.integers(0, 1000), min_size=4, max_size=4))}
         run['hamming'] = draw(st.sampled_from([0, 1, 1]))
+        run['jobbed'] = draw(st.sampled_from([False, False, True]))       # -jobbed: also write the job regions to a BED file
         run['eject_every'] = draw(st.sampled_from([None, None, 0, 1, 3, 7]))     # buffer check interval of the molecule iterator, scaled down
         return {'spec': spec, 'run': run}
     return case()
@@ -84,7 +85,8 @@ def run_tiling(bam_in, bam_out, run, d):
     tm.tag_multiome_multi_processing = patched
     try:
         tagrun.run_tagger(bam_in, bam_out, run['method'], multiprocess=True, threads=run['threads'], pool=run['pool'],
-                          order=run['order'], extra=['-umi_hamming_distance', str(run['hamming'])], eject_every=run.get('eject_every'))
+                          order=run['order'], extra=['-umi_hamming_distance', str(run['hamming'])] + (['-jobbed', os.path.join(d, 'jobs.bed')] if run.get('jobbed') else []),
+                          eject_every=run.get('eject_every'))
     finally:
         tm.tag_multiome_multi_processing = orig
 
@@ -110,7 +112,7 @@ def eval_case(case, kind):
                 run_tiling(bam_in, par, run, d)
             else:
                 tagrun.run_tagger(bam_in, par, run['method'], multiprocess=True, threads=run['threads'], pool=run['pool'],
-                                  order=run['order'], extra=extra, eject_every=run.get('eject_every'))
+                                  order=run['order'], extra=extra, eject_every=run.get('eject_every'))      # (-jobbed is refused in this mode)
         except BaseException as e:
             import traceback
             tb = [x for x in traceback.extract_tb(e.__traceback__) if 'singlecellmultiomics' in x.filename]
